@@ -907,6 +907,9 @@ retry:
 	case *types.Named:
 		typ = p.getUnderlying(t)
 		goto retry
+	case *types.Alias:
+		typ = types.Unalias(t)
+		goto retry
 	case *types.Interface:
 		if !ref && t.Empty() { // empty interface (https://github.com/goplus/xgo/issues/2571)
 			return []types.Type{types.Typ[types.String], typ}, ivMapStringAny
